@@ -390,7 +390,14 @@ func build(tier string) ([]runner.Instance, time.Duration) {
 						}
 						for _, mode := range []string{"static", "late", "unsub", "unsub-after-publish"} {
 							name := fmt.Sprintf("%s/par=%v,w=%d,buf=%d/pubs=%d,msgs=%d/%s", be.name, par, w, buf, shape[0], shape[1], mode)
-							out = append(out, runner.Instance{Group: be.name + "/" + mode, Name: name, Bound: bound,
+							ib := bound
+							if shape == [2]int{1, 3} {
+								if mode != "static" {
+									continue
+								}
+								ib = bound + 1 // subscriber delayed AND the later overflow sender first
+							}
+							out = append(out, runner.Instance{Group: be.name + "/" + mode, Name: name, Bound: ib,
 								Scenario: scenario(be, opts, shape[0], shape[1], mode == "late", mode == "unsub", mode == "unsub-after-publish")})
 						}
 					}
